@@ -329,6 +329,56 @@ def rule_line_patterns_all(ctx, rep):
     rep.check("R-LINE-PATTERNS-ALL", fn.qname, fn.loc(), not problems, "one-line-per-pattern", "; ".join(problems[:3]))
 
 
+def rule_gate_unit(ctx, rep):
+    rep.rule(
+        "R-GATE-UNIT",
+        "the (alias, import) pairs handed to RemoveUnusedImportsTransformer -- which drops exactly the *alias* of each pair -- pass the line "
+        "filter with the position of that alias, not of the enclosing import statement: a parenthesised multi-line import spans several "
+        "lines, so a `path:line` entry naming the alias' line would never match the statement (excluded aliases removed, included ones kept)",
+        min_instances=1,
+    )
+    n = 0
+    for fn in ctx.prog.live_functions():
+        r = ctx.resolver(fn)
+        ctors = [c for c in walk_no_nested(fn.node) if isinstance(c, ast.Call) and last_attr(c.func) == "RemoveUnusedImportsTransformer" and c.args]
+        for c in ctors:
+            s_arg = c.args[0]
+            if not isinstance(s_arg, ast.Name):
+                continue
+            fa = ctx.flow(fn)
+            adds = [a for a in walk_no_nested(fn.node) if isinstance(a, ast.Call) and isinstance(a.func, ast.Attribute) and a.func.attr == "add" and unparse(a.func.value) == s_arg.id and a.args and isinstance(a.args[0], ast.Tuple) and a.args[0].elts]
+            for a in adds:
+                unit = a.args[0].elts[0]
+                gates = []
+                for pol, ex in _fact_exprs(fa.must_at(a)):
+                    if pol and isinstance(ex, ast.Call) and last_attr(ex.func) == "filter_by_path_includes_or_excludes" and ex.args:
+                        gates.append(ex.args[0])
+                if not gates:
+                    continue  # ungated construction sites are R-GATE-LINE's business
+                n += 1
+                ok = True
+                why = ""
+                for g in gates:
+                    p = r.expand(g)
+                    node = None
+                    if isinstance(p, ast.Call) and last_attr(p.func) == "get_metadata" and len(p.args) >= 2:
+                        node = p.args[1]
+                    elif isinstance(p, ast.Call) and last_attr(p.func) == "node_position" and p.args:
+                        node = p.args[0]
+                    if node is None or unparse(node) != unparse(unit):
+                        ok = False
+                        why = f"the gate tests the position of `{unparse(node) if node is not None else unparse(p)[:40]}` but the unit that is removed is `{unparse(unit)}`"
+                rep.check("R-GATE-UNIT", fn.qname, fn.loc(a), ok, f"{s_arg.id}.add", why)
+    if n == 0:
+        rep.instance("R-GATE-UNIT", "codebase", "src/", True, detail="no line-gated construction site of an unused-import set")
+
+
+def _fact_exprs(must):
+    from ..flow import fact_exprs
+
+    return fact_exprs(must)
+
+
 def check(ctx, rep):
     rep.explanation = (
         "All 101 registered codemods' transformer classes (71 classes + the helper visitors they drive) are analysed with the "
@@ -346,4 +396,5 @@ def check(ctx, rep):
 
     rep.rule("R-DISPATCH-KEEPS-UPDATES", "the framework dispatcher hands back the updated node when the line / result filter declines (a declined enclosing node must not revert a permitted nested fix)", 3)
     rule_framework_dispatch_keeps_updates(ctx, rep, "R-DISPATCH-KEEPS-UPDATES")
+    rule_gate_unit(ctx, rep)
     rep.not_covered += ["fnmatch semantics of `path:line` spellings", "multi-line constructs (match_line requires start == end == line)"]
